@@ -955,6 +955,16 @@ func (w *world) buildAdmin(n *simNode, op string) (Task, bool) {
 		nd.Voter = !nd.Voter
 		cfg.Nodes[id] = nd
 		return ChangeConfig(cfg), true
+	case "flip2": // invalid: direct voter flip of two nodes in one request
+		for _, id := range []uint64{arg(1), arg(2)} {
+			nd, ok := cfg.Nodes[id]
+			if !ok {
+				return nil, false
+			}
+			nd.Voter = !nd.Voter
+			cfg.Nodes[id] = nd
+		}
+		return ChangeConfig(cfg), true
 	case "stale": // stale index
 		cfg.Index--
 		return ChangeConfig(cfg), true
